@@ -61,9 +61,13 @@ AddField(t, v, rep) == /\ Len(fields) < MaxFields
                        /\ UNCHANGED cgpos
 AddDs == /\ Len(fields) < MaxFields /\ ~(\E k \in 1..Len(fields) : IsDs(fields[k]))      \* the (documented) dropped tag, at any position
          /\ fields' = Append(fields, <<"ds", "Z", "*+a3-cc:1">>) /\ UNCHANGED cgpos
+(* the alignment-type tag the parser looks at (tp:A:P/p = primary, anything else = not primary), at any position *)
+TpVals == {"P", "p", "S", "I", "s", "i"}
+AddTp(v) == /\ Len(fields) < MaxFields /\ ~(\E k \in 1..Len(fields) : fields[k][1] = "tp")
+            /\ fields' = Append(fields, <<"tp", "A", v>>) /\ UNCHANGED cgpos
 SetCg(k) == cgpos = 0 /\ k \in 1..(Len(fields) + 1) /\ cgpos' = k /\ UNCHANGED fields
 RNext == (\E t \in Types, rep \in BOOLEAN : \E v \in ValsOf(t, IF fields = <<>> THEN ZLen ELSE 1) \cup {"a:b"} : (t = "Z" \/ v # "a:b") /\ AddField(t, v, rep))
-         \/ (\E k \in 1..(MaxFields + 1) : SetCg(k)) \/ AddDs
+         \/ (\E k \in 1..(MaxFields + 1) : SetCg(k)) \/ AddDs \/ (\E v \in TpVals : AddTp(v))
 RSpec == RInit /\ [][RNext]_rvars
 (* design sanity: identity re-serialisation is accepted, dropping or truncating is not *)
 IdentityAccepted == TagsVerdict(fields, fields, FALSE) = (IF \E k \in 1..Len(fields) : IsDs(fields[k]) THEN "ds_not_dropped" ELSE "ok")
